@@ -1,10 +1,38 @@
 import StepupModel.Proto
-/-! Driver requests of C01 (`c01 <op> ...`). -/
-open StepupModel StepupModel.Proto
+import StepupModel.P.Skip
+/-! Driver requests of C01 (`c01 <op> ...`): the executor's skip decision.
+
+* `c01 skip <storedInp> <storedOut> <newInp|~> <newOut|~>` → `<result> <ops>`
+* `c01 validate <storedInp> <newInp|~>` → `<result> <ops>`
+
+Digests are opaque tokens (hex text), `~` is a computation that delivered nothing. -/
+open StepupModel StepupModel.Proto StepupModel.P.Skip
 
 namespace StepupModel.Drv.C01
 
+def optTok (t : String) : Option String := if t = "~" then none else some t
+
+def opsTok (l : List String) : String := if l.isEmpty then "." else ",".intercalate l
+
+def skipName : SkipResult String → String
+  | .failedEarly => "failed-early"
+  | .resetInputs => "reset-inputs"
+  | .cancelled => "cancelled"
+  | .resetOutputs => "reset-outputs"
+  | .skipped d => "skipped:" ++ d.inp ++ ":" ++ d.out
+
+def validateName : ValidateResult → String
+  | .failedEarly => "failed-early"
+  | .reset => "reset"
+  | .keepWaiting => "keep-waiting"
+
 def handle : List String → Option String
+  | ["skip", si, so, ni, no] =>
+    let r := trySkip (δ := String) ⟨si, so⟩ (optTok ni) (optTok no)
+    some (skipName r ++ " " ++ opsTok r.ops)
+  | ["validate", si, ni] =>
+    let r := validateDynamic (δ := String) si (optTok ni)
+    some (validateName r ++ " " ++ opsTok r.ops)
   | _ => none
 
 end StepupModel.Drv.C01
